@@ -94,7 +94,14 @@ type EffectDirective struct {
 
 type PropFile struct{ Prop, File, Re string }
 
+type EnsuresAll struct {
+	Invariant             bool
+	Prop, Re, Label, Expr string
+	Line                  int
+}
+
 type ContractFile struct {
+	EnsuresAll []EnsuresAll
 	PropFiles []PropFile
 	Effects  []EffectDirective
 	Guards   []GuardDirective
@@ -242,6 +249,22 @@ func parseContracts(path string) (*ContractFile, error) {
 				}
 			}
 			cf.TypeInvs = append(cf.TypeInvs, ti)
+			cur = nil
+			continue
+		case strings.HasPrefix(t, "ensuresall "), strings.HasPrefix(t, "invariantall "):
+			// ensuresall Cxx <regexp over function names> <label>: <expr>
+			// invariantall ...: the same expression as an invariant of every loop of those functions
+			isInv := strings.HasPrefix(t, "invariantall ")
+			rest := strings.TrimSpace(t[strings.Index(t, " "):])
+			fs := strings.SplitN(rest, " ", 3)
+			if len(fs) != 3 {
+				return nil, fmt.Errorf("line %d: ensuresall Cxx regexp label: expr", no)
+			}
+			m := labelRe.FindStringSubmatch(fs[2])
+			if m == nil {
+				return nil, fmt.Errorf("line %d: ensuresall needs 'label: expr'", no)
+			}
+			cf.EnsuresAll = append(cf.EnsuresAll, EnsuresAll{Prop: fs[0], Re: fs[1], Label: m[1], Expr: fs[2][len(m[0]):], Line: no, Invariant: isInv})
 			cur = nil
 			continue
 		case strings.HasPrefix(t, "propagatesfile "):
